@@ -453,15 +453,6 @@ func foldback(s hc.Seg) (fold, collinear bool) {
 
 // degenerate: a curve whose flattening is empty on the real code (zero-area out-and-back curve with
 // coinciding end points and collinear control points) — makes a subpath vanish; judged by the oracle.
-func hasFoldback(segs []hc.Seg) bool {
-	for _, s := range segs {
-		if f, _ := foldback(s); f {
-			return true
-		}
-	}
-	return false
-}
-
 func corrSig(c *hc.Ctx) {
 	for it := 0; it < c.N; it++ {
 		kinds := []string{"LQ", "LQC", "LQCA", "QCAZ", "LAZ", "QC"}[c.Intn(6)]
@@ -482,16 +473,16 @@ func corrSig(c *hc.Ctx) {
 			c.Fail("malformed-output", err.Error(), map[string]any{"path": p.String(), "tol": tol})
 			continue
 		}
-		closedCurve := false
+		skip := false
 		for _, s := range in {
-			if (s.Kind == 'Q' || s.Kind == 'C') && s.P0.Dist(s.End) < 1e-9 {
-				closedCurve = true
+			// a closed CUBIC with a collinear fold-back control polygon still flattens to nothing (recorded
+			// defect class, judged by the oracle in oraclePaths); closed quadratics are repaired (459021a)
+			if fold, col := foldback(s); s.Kind == 'C' && s.P0.Dist(s.End) < 1e-9 && fold && col {
+				skip = true
 			}
 		}
-		if closedCurve && hasFoldback(in) {
-			// a closed curve with collinear control points flattens to nothing (known defect class,
-			// judged and classified by the oracle in oraclePaths); not a correspondence case
-			c.Count("sig-skip-closed-foldback-curve")
+		if skip {
+			c.Count("sig-skip-closed-collinear-cubic")
 			continue
 		}
 		c.Case("SIG "+cmdTokens(in), "~", sigTokens(signature(out)))
@@ -808,7 +799,7 @@ func flattenOne(c *hc.Ctx, p *canvas.Path, tol float64, fam string) {
 		ap.ArcTo(w.Rx, w.Ry, w.Phi*180/math.Pi, w.Large, w.Sweep, w.End.X, w.End.Y)
 		if cs, err := hc.Decode(ap.ReplaceArcs().Data()); err == nil {
 			for _, s := range cs {
-				if k := classify(s); k != "" {
+				if k := classify(s); k != "" && s.Kind == 'C' {
 					known = k
 				}
 			}
@@ -840,7 +831,32 @@ func flattenOne(c *hc.Ctx, p *canvas.Path, tol float64, fam string) {
 	c.Count("oracle-ok:" + fam)
 }
 
+// regressionInputs: the minimal inputs of the repaired defects (corpus/C03/fix-*.md); judged on every run so
+// that a recurrence is reported with its input.
+var regressionInputs = []struct {
+	name, path string
+	tols       []float64
+}{
+	{"fix-beyond-end 0b69218", "M5.25 13.188C-9 8.401 6 1.369 -1.929 6", []float64{1}},
+	{"fix-backtrack f26c4de", "M4.75 -16.342C2.009085582444131 1.1275676600967628 4.744297569384708 -15.214432339903237 2 0", []float64{0.1, 0.01}},
+	{"fix-end-inflection e58f3d4", "M0.214 -15.896C16.371 -3 -0.854 19.91 -0.854 19.91", tolerances},
+	{"fix-foldback-quad 459021a", "M0 0Q2 0 1 0", tolerances},
+	{"fix-foldback-quad 459021a", "M0 0Q0.5 100 1 0", tolerances},
+	{"fix-foldback-quad 459021a", "M9 9L8 8M0 0Q1 0 0 0M5 5L6 6", tolerances},
+	{"fix-lineto 219108c", "M-3 7.23Q-18.22 -18.615 -15.935 0Q-14.033 -8 -19.436 4.25L-3 11.485L-3 -5.576Q-8 10 -3 5z", []float64{1}},
+}
+
 func oracleCurves(c *hc.Ctx) {
+	for _, r := range regressionInputs {
+		p, err := canvas.ParseSVGPath(r.path)
+		if err != nil {
+			c.Fail("regression-input-unparsable", err.Error(), r.path)
+			continue
+		}
+		for _, tol := range r.tols {
+			flattenOne(c, p, tol, "regression:"+r.name)
+		}
+	}
 	// quadratics and cubics, one curve per path, every tolerance: also checks error -> 0
 	for it := 0; it < c.N; it++ {
 		if c.Bool() {
